@@ -1,0 +1,72 @@
+//go:build verif
+
+package table
+
+import (
+	"os"
+
+	"github.com/lindb/lindb/pkg/fileutil"
+)
+
+// This file only exists under the build tag "verif" (add-only seams for the external verification
+// harness). Nothing here changes behaviour while no hook is installed.
+
+// VerifSetOpenHook wraps the two calls a table reader makes when it is created for a table file that
+// is not in the reader cache: opening the file (op "tableOpen") and mapping it (op "tableMap").
+// h is called before (before=true) and after (before=false) each of them; nil restores production.
+func VerifSetOpenHook(h VerifFSHook) {
+	if h == nil {
+		openFileFn = os.Open
+		mapFunc = fileutil.Map
+		return
+	}
+	openFileFn = func(name string) (*os.File, error) {
+		h("tableOpen", name, true)
+		f, err := os.Open(name)
+		h("tableOpen", name, false)
+		return f, err
+	}
+	mapFunc = func(f *os.File) ([]byte, error) {
+		h("tableMap", f.Name(), true)
+		data, err := fileutil.Map(f)
+		h("tableMap", f.Name(), false)
+		return data, err
+	}
+}
+
+// VerifSetUnmapFileHook is VerifSetUnmapHook that also tells which mapping is closed: f is the open
+// file behind the mapping (see VerifReaderFile). The unmap itself is always performed.
+func VerifSetUnmapFileHook(h func(path string, f *os.File)) {
+	if h == nil {
+		unmapFunc = fileutil.Unmap
+		return
+	}
+	unmapFunc = func(f *os.File, data []byte) error {
+		if f != nil {
+			h(f.Name(), f)
+		}
+		return fileutil.Unmap(f, data)
+	}
+}
+
+// VerifReaderFile returns the open file behind the mapping of a table reader (the identity of the
+// mapping), nil for other Reader implementations.
+func VerifReaderFile(r Reader) *os.File {
+	if mr, ok := r.(*storeMMapReader); ok {
+		return mr.f
+	}
+	return nil
+}
+
+// VerifCacheBusy reports whether the mutex of the reader cache is held at this moment.
+func VerifCacheBusy(c Cache) bool {
+	sc, ok := c.(*storeCache)
+	if !ok {
+		return false
+	}
+	if sc.mutex.TryLock() {
+		sc.mutex.Unlock()
+		return false
+	}
+	return true
+}
